@@ -14,6 +14,11 @@ CHECKS = {
         technique='bit-precise symbolic execution of the MIR of presize/with_capacity/try_presize/init_table/reserve/add_count/treeify_bin/transfer into z3 bit-vector queries (cvc5 cross-check); native replay through an injected inspector',
         text='The operand passed to Table::new and every value stored to size_ctl/count are extracted as 64-bit bit-vector terms from the MIR of the current tree; z3 (cross-checked by cvc5) decides the capacity contract for ALL 2^64 requested capacities, all counts/thresholds and every power-of-two table length: bins = least power of two >= 1.5c+1 capped at 2^30, c <= 0.75*bins, with_capacity(0) allocates nothing, growth is exactly 2x and only when an insert brings count to the threshold, never on a removal, never beyond 2^30, overfull bins in tables < 64 only reserve 2x. Counterexamples are replayed natively before being reported.',
         note='Sequential semantics per function (CAS succeeds iff expected value present); callees that are not inlined are havoc (may rewrite every cell of the map); entry-state invariants are stated in the evidence. Retry loops unrolled twice. "Well-distributed" = collision-free keys in the native replay.'),
+    'C18': dict(
+        level='fault_enumeration', design='DESIGN.md §4 C18',
+        technique='SMT reachability (z3) over MIR unwind edges: CFG x drop-flags x lock/write monitor per closure call site; native panic-injection replay',
+        text='Fault enumeration over every user-closure call site found in the MIR of the current tree: z3 decides, complete for the finite CFG x drop-flag x monitor product, whether an unwind path from the closure reaches resume with a bin lock held (U1), writes/retires shared state while unwinding (U2), follows a shared write made earlier in the same critical section (U3) or drops a poisoning std MutexGuard (U4). A sat answer is replayed natively with a panic at every i-th invocation, comparing the map with a model and writing to the same bin from a second thread under a watchdog.',
+        note='Only panics of the closures named by the property are fault points. Effect classes are assigned by callee name. Contents-vs-count consistency after a panic in retain is not decided by this path check (it is what the concrete-heap engine is for); see DESIGN.md.'),
 }
 
 NOT_APPLICABLE = {
